@@ -369,7 +369,7 @@ def bank(focus=None, seed=0, deep=False):
     tried = 0
     clause = "the pin store behaves as the abstract pin map; every operation is all-or-nothing under faults and crashes; export/import round-trips"
     try:
-        for depth in (1, 2):
+        for depth in ((1, 2, 3) if deep else (1, 2)):
             for hist in itertools.product(OPS, repeat=depth):
                 tried += 1
                 r = check_history(d, hist)
